@@ -350,6 +350,17 @@ func c18Reload(p *core.Program, r *core.Report) {
 			if len(v.Lhs) == 1 && len(v.Rhs) == 1 && norm(v.Lhs[0]) == "new_time" {
 				newTimeDef = norm(v.Rhs[0])
 			}
+			// new_time, exists := fileModTime(path): what the helper returns for that result
+			if len(v.Rhs) == 1 && len(v.Lhs) > 1 {
+				if call, ok := ast.Unparen(v.Rhs[0]).(*ast.CallExpr); ok {
+					rs := helperResults(p, fi.Pkg.TypesInfo, call)
+					for i, l := range v.Lhs {
+						if norm(l) == "new_time" && i < len(rs) {
+							newTimeDef = norm(rs[i])
+						}
+					}
+				}
+			}
 		case *ast.IfStmt:
 			cs := norm(v.Cond)
 			if strings.Contains(cs, "last_file_time") && strings.Contains(cs, "new_time") && len(v.Body.List) == 1 {
@@ -365,7 +376,9 @@ func c18Reload(p *core.Program, r *core.Report) {
 	r.Check(strings.Contains(newTimeDef, "ModTime()") && !strings.HasSuffix(newTimeDef, ".Unix()"), "C18.reload", c+" mtime resolution", pos, "full-resolution modification time",
 		"the modification time is truncated to seconds ("+newTimeDef+"): a second edit within the same second is missed")
 	// observer notified after apply on the changed path
+	rlIn := newInliner(p, fi, func(fn *types.Func) bool { return fn.Name() == "apply" })
 	ps, _ := paths.Enumerate(fi.Decl.Body, paths.Config{Info: fi.Pkg.TypesInfo,
+		Inline: rlIn.Body, // loadFile(path), notifyObservers() and the like are followed
 		Cond: func(cnd ast.Expr, v bool) *paths.Event {
 			return &paths.Event{Kind: "COND", Arg: fmt.Sprintf("%s=%v", norm(cnd), v)}
 		},
